@@ -20,6 +20,13 @@ Kernel-checked here:
   builder), respectively C15's stream for the SBOM model. What is stated against something other than
   the builder: `C14_proto_lossless_partial` (against the reader `Scalibr.ProtoPkg.read`), the wrap and
   annotation counterexamples, and `C14_spdx_fields` (against `Scalibr.Sbom.spdxRecord`, a filter).
+* for ALL scan results: the non-package part of the result proto (model `Scalibr.ProtoResult`: scan / plugin statuses,
+  findings with advisory, severity, CVSS, target, the early error return, the deprecated copies) — the conversion's
+  OUTCOME is the specification's (error of the first finding without advisory / id, else success:
+  `C14_result_outcome_partial`), reading the record back gives the result (`C14_result_lossless_partial`), both under the
+  hypotheses the CURRENT code needs (a severity on every advisory — else it panics, `C14_result_nil_severity_panics` —
+  and no detector names — it drops them, `C14_result_drops_detectors`); and `typeForPath` accepts exactly the paths ending
+  in .binproto / .textproto [.gz] (`C14_file_type`, for all paths).
 Not proved (exercised by the harvest / layout / accept / purlrt streams, which are testing): that the 58
 `ToPURL` / `Ecosystem` implementations never panic on what `Extract` returned and give a non-empty name and
 a location; packageurl-go's printing and parsing (idempotence; type acceptance of the data-determined purls
@@ -29,6 +36,8 @@ import Scalibr.Proofs.Index
 import Scalibr.Gen.Purl
 import Scalibr.Spec.ProtoPkg
 import Scalibr.Proofs.SbomFields
+import Scalibr.Proofs.ProtoResult
+import Scalibr.Proofs.ProtoFile
 namespace Scalibr.Index
 open Scalibr.Gen.Purl
 
@@ -218,3 +227,61 @@ theorem C14_cdx_fields {Purl : Type} (ops : PurlOps Purl) (env : Env) (cfg : CDX
   exact ⟨_, rfl, cdxLoop_fields ops env inv 1⟩
 
 end Scalibr.Sbom
+
+
+/-! ## The rest of the result proto: statuses, findings, file names -/
+
+namespace Scalibr.ProtoResult
+
+/-- OUTCOME. Where no advisory with an id lacks a severity, `ScanResultToProto` fails exactly as the specification says:
+with the error of the FIRST finding that has no advisory / no advisory id, and succeeds otherwise. -/
+theorem C14_result_outcome_partial {S P PP T : Type} (pk : P → PP) (r : ScanResult S P T) (h : NoNilSeverity r.findings) :
+    (scanResultToProto pk r).erase = specOutcome r.findings := by
+  have := findingsLoop_outcome pk r.findings [] h
+  unfold scanResultToProto
+  cases hl : findingsLoop pk r.findings [] <;> rw [hl] at this <;> exact this
+
+/-- …and the hypothesis is needed: the CURRENT `severityToProto` dereferences a nil `*Severity` (recorded finding
+C14/finding-nil-severity-panics). -/
+theorem C14_result_nil_severity_panics :
+    ∃ f : Finding Unit Unit, HasID f ∧ findingToProto (fun (_ : Unit) => ()) f = .panic :=
+  ⟨⟨some ⟨some ("CVE", "CVE-1"), 1, "t", "d", "r", none⟩, none, "", []⟩, ⟨_, _, rfl, rfl⟩, rfl⟩
+
+/-- LOSSLESS. For a result whose values the record can represent (declared enum constants, plugin versions within int32) and
+whose findings all have an advisory with id and severity and no detector names: the conversion succeeds, reading the record
+back gives the result's generic content (statuses, reasons, plugin names / versions, every advisory / severity / CVSS / target
+field, in order), and the two deprecated copies equal the inventory's lists. -/
+theorem C14_result_lossless_partial {S P PP T : Type} (pk : P → PP) (r : ScanResult S P T)
+    (hs : StatusOK r.status) (hp : ∀ s ∈ r.pluginStatus, PluginOK s) (hf : ∀ f ∈ r.findings, FindingOK f) :
+    ∃ p, scanResultToProto pk r = .ok p ∧ read p = generic pk r ∧
+      p.inventoriesDeprecated = p.packages ∧ p.findingsDeprecated = p.findings := by
+  obtain ⟨ps, hps, hm⟩ := findingsLoop_lossless pk r.findings [] hf
+  refine ⟨_, by simp only [scanResultToProto, hps]; rfl, ?_, rfl, rfl⟩
+  have hpl : (r.pluginStatus.map pluginStatusToProto).map readPlugin = r.pluginStatus := by
+    rw [List.map_map]
+    conv => rhs; rw [← List.map_id r.pluginStatus]
+    exact List.map_congr_left fun s hs' => readPlugin_pluginStatusToProto s (hp s hs')
+  simp only [read, generic, readStatus_scanStatusToProto r.status hs, hpl, List.nil_append, hm]
+
+/-- …and the last hypothesis is needed: the CURRENT `findingToProto` does not set `spb.Finding.detectors` (recorded finding
+C14/finding-detectors-dropped): the record of a finding that names its detector names none. -/
+theorem C14_result_drops_detectors :
+    ∃ (f : Finding Unit Unit) (p : PFinding Unit Unit), f.detectors = ["cve/x"] ∧
+      findingToProto (fun (_ : Unit) => ()) f = .ok p ∧ p.detectors = [] :=
+  ⟨⟨some ⟨some ("CVE", "CVE-1"), 1, "t", "d", "r", some ⟨3, none, none⟩⟩, none, "", ["cve/x"]⟩, _, rfl, rfl, rfl⟩
+
+/-- every status value outside the three declared constants becomes UNSPECIFIED (the record cannot tell them apart) -/
+theorem C14_result_status_default (s : ScanStatus) (h : s.status < 1 ∨ 3 < s.status) :
+    (scanStatusToProto s).status = .unspecified := by
+  unfold scanStatusToProto
+  have h1 : s.status ≠ 1 := by omega
+  have h2 : s.status ≠ 2 := by omega
+  have h3 : s.status ≠ 3 := by omega
+  simp [h1, h2, h3]
+
+/-- FILE NAMES. `typeForPath` (hence `ValidExtension` / `Write`) accepts exactly the paths that end in `.binproto` or
+`.textproto`, optionally followed by `.gz`, and gzips / writes binary accordingly — for all paths. -/
+theorem C14_file_type (p : List Char) (ft : FileType) : typeForPath p = .ok ft ↔ specFileType p = some ft :=
+  typeForPath_spec p ft
+
+end Scalibr.ProtoResult
